@@ -118,3 +118,15 @@ Proof.
       * cbn. repeat split.
     + exists c. split; reflexivity.
 Qed.
+
+(* after a successful open the raw layer knows the real end of the file *)
+Theorem rdm_open_fend : forall f st, rdm_open f = RdmOpened st -> rp_fend (rp_r (rdm_io st)) = rp_len f.
+Proof.
+  intros f st H. destruct (rdm_open_opened f st H) as (c & c1 & Es & Esid & Hst). subst st.
+  pose proof (rpp_scan_cases f) as K. rewrite Es in K. destruct K as (c3 & _ & (I1 & I2 & I3) & Hend & Hfile).
+  pose proof (rpp_rd_chunk_end_frame (rp_io_ c3)) as F. rewrite Hend in F. cbn [fst] in F. destruct F as (_ & _ & F3).
+  pose proof (rpp_scan_fsr_sample_id_frame c) as G. rewrite Esid in G. cbn [fst] in G. destruct G as (_ & _ & G3).
+  change (rp_fend (rp_r (rp_io_ c1)) = rp_len f). rewrite G3, F3.
+  destruct I3 as [I3 | I3]; [exact I3 |]. exfalso.
+  unfold rp_rd_chunk_end in Hend. rewrite I3 in Hend. cbn in Hend. discriminate.
+Qed.
